@@ -1,4 +1,5 @@
 import TbotVerif.Props.CtxExec
+import TbotVerif.Props.CtxLeak6
 set_option linter.unusedSimpArgs false
 set_option linter.unusedVariables false
 /-! # C14 — the context never has two live instances of a machine and never leaks one
@@ -62,6 +63,46 @@ theorem final_ups (cs : Case) (hwf : cs.cfg.wf = true) (c o : Nat) :
   have := (h.upInst o hu).1
   rw [hc] at this
   exact this
+
+theorem inv2_init (n : Nat) (ka roe : Bool) : Inv2 n Fa Fa [] (initSt ka roe) := by
+  constructor <;> simp [initSt]
+
+theorem wf_parts {cs : Case} (hwf : cs.wf = true) :
+    cs.cfg.wf = true ∧ cs.prog.classesBelow cs.cfg.n = true := by
+  unfold Case.wf at hwf
+  simpa [Bool.and_eq_true] using hwf
+
+/-- at the end of every program no manager has an instance -/
+theorem final_quiet (cs : Case) (hwf : cs.wf = true) : Quiet (runSt cs) := by
+  obtain ⟨hc, hp⟩ := wf_parts hwf
+  have hd := depsBelow_of_wf hc
+  have := execBlock_quiet cs.cfg hd cs.prog (initSt cs.ka cs.roe) hp (inv_init cs.ka cs.roe)
+    (inv2_init cs.cfg.n cs.ka cs.roe) rfl (fun c => rfl)
+  intro c
+  exact this c
+
+/-- **I2 (no leak)** — every machine object that was initialised has been torn down when the
+    program ends: nothing is up.  Every well-formed program, every configuration (keep-alive,
+    reconfigure, nested `with ctx`, also programs that never enter the context), every fault oracle
+    (including teardowns that raise). -/
+theorem I2_no_leak (cs : Case) (hwf : cs.wf = true) : ups (run cs).reverse = [] := by
+  rw [run_reverse]
+  have h := inv_runSt cs (wf_parts hwf).1
+  have hq := final_quiet cs hwf
+  rw [List.eq_nil_iff_forall_not_mem]
+  intro ⟨c, o⟩ hm
+  obtain ⟨_, _, hu⟩ := (h.upsIff c o).mp hm
+  have := (h.upInst o hu).1
+  rw [hq _] at this
+  cases this
+
+/-- **I2** — init/teardown events of each object alternate starting with a fresh init, and every
+    object ends down: each initialised instance is torn down exactly once. -/
+theorem I2 (cs : Case) (hwf : cs.wf = true) : specI2 (run cs).reverse = true := by
+  have ha := I2_alternation cs (wf_parts hwf).1
+  have hl := I2_no_leak cs hwf
+  unfold specI2
+  simp [ha.1, ha.2, hl]
 
 /-! ### non-vacuity -/
 
